@@ -45,7 +45,9 @@ def collect(pid, tier, replay_path, prefixes, wd, rng, extra_stmts=None, per_rec
             stmts = stmts + extra_stmts
         # binary expression nodes are built through the named builder methods of spec/expr_methods.json
         import exprmeth
-        for st_ in stmts: exprmeth.annotate(st_, rng, 0.7)
+        for st_ in stmts:
+            exprmeth.annotate(st_, rng, 0.7)
+            exprmeth.annotate_calls(st_, rng, 0.5)
     cases = [{"id": i, "stmt": s} for i, s in enumerate(stmts)]
     recs, dt = replay("stmt", cases, wd)
     verdicts, vt = validate("StmtTrace", recs, os.path.join(wd, "tv"), jvms=12, cfg="SPECIFICATION TSpec\nPOSTCONDITION AllConsumed\nCHECK_DEADLOCK FALSE\n", env={"GRAMMAR": "1" if grammar else "0", "PORTABLE": "1" if portable else "0"})
@@ -59,6 +61,8 @@ def collect(pid, tier, replay_path, prefixes, wd, rng, extra_stmts=None, per_rec
         return {b: (x.get("r", x) if isinstance(x, dict) else x) for b, x in o["r"].items() if b in ("mysql", "pg", "sqlite")}
     for v in verdicts:
         r = byid[v["id"]]
+        if any(k.startswith("!case_error") for k in v["keys"]):
+            raise ToolError("%s: statement %d: %s" % (pid, v["id"], [k for k in v["keys"] if k.startswith("!")]))
         keys = set(k for k in v["keys"] if any(k.startswith(p) for p in prefixes))
         if per_record:
             extra = per_record(r, v)
